@@ -338,6 +338,77 @@ func runSubKey(c *core.Ctx) {
 	uo, ui := keys(unsub)
 	c.Check(all(uo, "p:"+unsub.Params[1].Name()) && all(ui, "p:"+unsub.Params[2].Name()), nil, fname(c, unsub), "keys", P.Pos(unsub.Pos()),
 		fmt.Sprintf("outer %v, inner %v", uo, ui), fmt.Sprintf("Unsubscribe keys: outer %v, inner %v, want (connection id, subscription id)", uo, ui))
+	// Unsubscribe removes one subscription, not the connection: the outer entry may go only
+	// once the inner table is empty *after* the named subscription was taken out of it
+	{
+		type occ struct {
+			name string
+			o    an.Occ
+		}
+		var outerOps, innerOps []occ
+		an.Region(unsub, func(g *ssa.Function) bool { return recvTypeName(g) == "safeMap" }, func(o an.Occ) {
+			call, ok := o.In.(*ssa.Call)
+			if !ok {
+				return
+			}
+			sc := an.StaticCallee(&call.Call)
+			if sc == unall {
+				outerOps = append(outerOps, occ{"Delete", o}) // the connection-wide removal, called from the single-subscription one
+				return
+			}
+			if sc == nil || recvTypeName(sc) != "safeMap" || len(call.Call.Args) < 1 {
+				return
+			}
+			if o.Path(call.Call.Args[0]) == "recv.subs" {
+				outerOps = append(outerOps, occ{originOf(sc).Name(), o})
+			} else {
+				innerOps = append(innerOps, occ{originOf(sc).Name(), o})
+			}
+		})
+		okDrop, why := true, "the outer table is only read"
+		for _, op := range outerOps {
+			if op.name == "TryGet" || op.name == "Get" || op.name == "Len" {
+				continue
+			}
+			if op.name != "Delete" {
+				okDrop, why = false, "outer "+op.name
+				continue
+			}
+			// dominated by the inner Delete, and guarded by inner Len() == 0
+			site := op.o.Site()
+			dominated, emptyGuard := false, false
+			for _, in := range innerOps {
+				if in.name == "Delete" && in.o.Site().Block().Dominates(site.Block()) && in.o.Site() != site {
+					dominated = true
+				}
+			}
+			for _, g := range an.Guards(unsub, site.Block()) {
+				b, isB := g.V.(*ssa.BinOp)
+				if !isB {
+					continue
+				}
+				call, isCall := b.X.(*ssa.Call)
+				if !isCall {
+					continue
+				}
+				sc := an.StaticCallee(&call.Call)
+				if sc == nil || recvTypeName(sc) != "safeMap" || originOf(sc).Name() != "Len" || an.PathOf(call.Call.Args[0]) == "recv.subs" {
+					continue
+				}
+				fr := an.Frame{IsSubject: func(v ssa.Value) bool { return v == ssa.Value(call) }, Term: func(v ssa.Value) (int64, bool) { return an.ConstInt(v) }}
+				if set, ok := fr.Atom(g.V, g.True); ok && set.Intersect(an.Range(0, an.PosInf)).Equal(an.Range(0, 0)) {
+					emptyGuard = true
+				}
+			}
+			if !(dominated && emptyGuard) {
+				okDrop, why = false, fmt.Sprintf("outer Delete (after the inner Delete: %v, only when the inner table is empty: %v)", dominated, emptyGuard)
+			} else if okDrop {
+				why = "the outer entry is dropped only after the inner Delete and when the inner table is empty"
+			}
+		}
+		c.Check(okDrop, nil, fname(c, unsub), "outer-entry", P.Pos(unsub.Pos()), why,
+			"Unsubscribe removes the connection's whole table: "+why+" — a CLOSE for one subscription id ends the connection's other open subscriptions, which then miss every later matching event")
+	}
 	ao, ai := keys(unall)
 	c.Check(all(ao, "p:"+unall.Params[1].Name()) && len(ai) == 0 && len(ao) == 1 && strings.HasPrefix(ao[0], "Delete("), nil, fname(c, unall), "keys", P.Pos(unall.Pos()),
 		fmt.Sprintf("outer %v", ao), fmt.Sprintf("UnsubscribeAll: outer %v inner %v, want Delete(connection id) on the outer map", ao, ai))
